@@ -11,6 +11,7 @@ from __future__ import annotations
 
 import os
 import shutil
+import time
 
 from harness.adapters import fsisolation as ad
 from harness.core import Ctx, parallel_map
@@ -174,7 +175,8 @@ def slim(tr: dict) -> dict:
 
 
 def judge(ctx: Ctx, behs: list[dict], traces: list[dict]) -> None:
-    verdicts = ctx.validate("FsIsolationTrace", [slim(t) for t in traces], chunk=6000)
+    chunk = min(20000, max(2000, -(-len(traces) // 3)))  # three JVMs run side by side
+    verdicts = ctx.validate("FsIsolationTrace", [slim(t) for t in traces], chunk=chunk)
     seen: set[str] = set()
     drift_seen: set[str] = set()
     for idx, bad in sorted(verdicts.items()):
@@ -215,7 +217,7 @@ def run(ctx: Ctx) -> None:
     # design: intended design satisfies C29; as-is model loses paths only through named deviations
     thorough = not ctx.quick
     ctx.design("FsIsolation", "FsIsolation_thorough.cfg" if thorough else "FsIsolation.cfg")
-    ctx.design("FsIsolation", "FsIsolation_asis_thorough.cfg" if thorough else "FsIsolation_asis.cfg")
+    ctx.design("FsIsolation", "FsIsolation_asis_thorough.cfg" if thorough else "FsIsolation_asis_quick.cfg")
     if thorough:  # sanity: the code-as-is model does exhibit the loss (TLC counterexample expected)
         cex = ctx.design("FsIsolation", "FsIsolation_asis_cex.cfg", expect_ok=False)
         if not cex.violations:
@@ -238,16 +240,18 @@ def run(ctx: Ctx) -> None:
                     d2.append(b)
     behs += d2
     n2 = len(d2)
-    n_sim = 60 if ctx.quick else 2500
-    for st in ctx.simulate("MC_FsIsolation", "MC_FsIsolation_sim.cfg", num=n_sim, depth=8):
-        if st.get("hist"):
-            behs.append({"hist": st["hist"]})
+    if thorough:    # random long histories (every non-final call changes the model state)
+        for st in ctx.simulate("MC_FsIsolation", "MC_FsIsolation_sim.cfg", num=2500, depth=8):
+            if st.get("hist"):
+                behs.append({"hist": st["hist"]})
     ctx.notes["behaviours_exhaustive_depth1_all_variants"] = n1
     ctx.notes["behaviours_depth2_executed"] = n2
     ctx.notes["behaviours_simulated"] = len(behs) - n1 - n2
     ctx.exhaustive = True
 
+    t_exec = time.time()
     traces = execute(ctx, behs)
+    ctx.notes["replay_wall_s"] = round(time.time() - t_exec, 1)
     ctx.evaluations = len(traces)
     for t in traces:
         for e in t["ev"][:-1]:
